@@ -1,0 +1,5 @@
+//go:build !verif
+
+package scanner
+
+func verifScanStep(any, byte, int, int) {}
